@@ -183,153 +183,213 @@ Proof. apply allvis_nolf, allvis_color. Qed.
 Lemma frac_nolf d digits : lf_count (frac d digits) = 0%nat.
 Proof. apply allvis_nolf, allvis_frac. Qed.
 
-(* ---------------------------------------------------------------- reachability *)
+(* ---------------------------------------------------------------- what the formatter preserves *)
 Local Open Scope nat_scope.
 
 (* The formatter pushes two kinds of text RAW (out.push, no newline processing) that are not fixed by the
-   code: the name of a FunctionCall and the stylesheet.after option.  A line feed inside one of them would
-   not be accounted in line/column; [css_raw_ok] says they have none. *)
+   code: the name of a FunctionCall (followed by "(") and the stylesheet.after option.  [names_ok ok v] says
+   every such name of [v] satisfies [ok]. *)
+Fixpoint names_ok (ok : str -> Prop) (v : cval) : Prop :=
+  match v with
+  | VTok _ _ _ => True
+  | VFunc name args =>
+      ok (name ++ [c_lparen]) /\
+      (fix go (l : list (list cval)) : Prop :=
+         match l with
+         | [] => True
+         | a :: r => (fix go2 (vs : list cval) : Prop :=
+                        match vs with [] => True | x :: xs => names_ok ok x /\ go2 xs end) a /\ go r
+         end) args
+  end.
+Lemma names_ok_func ok name args :
+  names_ok ok (VFunc name args) <-> ok (name ++ [c_lparen]) /\ Forall (Forall (names_ok ok)) args.
+Proof.
+  cbn [names_ok]. apply and_iff_compat_l.
+  induction args as [|a r IH]; [split; [constructor|exact (fun _ => I)]|].
+  rewrite Forall_cons_iff, <- IH. apply and_iff_compat_r.
+  induction a as [|x xs IHa]; [split; [constructor|exact (fun _ => I)]|].
+  rewrite Forall_cons_iff, <- IHa. reflexivity.
+Qed.
+Definition prop_names_ok (ok : str -> Prop) (p : cssprop) : Prop := Forall (Forall (names_ok ok)) (pvalue p).
+
+Lemma Forall_all {A} (P : A -> Prop) (H : forall a, P a) l : Forall P l.
+Proof. induction l; constructor; auto. Qed.
+Lemma lf_count_app_nolf a b : lf_count a = 0 -> lf_count b = 0 -> lf_count (a ++ b) = 0.
+Proof. intros. rewrite lf_count_app. lia. Qed.
+Lemma get_quote_nolf c : lf_count (get_quote c) = 0.
+Proof. unfold get_quote. destruct (cf_json_dq c); reflexivity. Qed.
+
+(* Any property [Inv] of streams that the stream operations preserve -- raw pushes only for fragments
+   satisfying [ok], where [ok] holds at least for every fragment without a line feed -- is preserved by
+   every function of the formatter, provided the function names and stylesheet.after satisfy [ok]. *)
+Section Keeps.
+  Variable c : cssfmt.
+  Variable Inv : ostream -> Prop.
+  Variable ok : str -> Prop.
+  Hypothesis Hpush : forall o s, ok s -> Inv o -> Inv (os_push o s).
+  Hypothesis Hstring : forall o s, Inv o -> Inv (os_push_string (cf_fmt c) o s).
+  Hypothesis Hfield : forall o i ph, Inv o -> Inv (os_push_field o i ph).
+  Hypothesis Hnewline : forall o ind, Inv o -> Inv (os_push_newline (cf_fmt c) o ind).
+  Hypothesis Hnolf : forall s, lf_count s = 0 -> ok s.
+
+  Lemma K_space_if (b : bool) o : Inv o -> Inv (if b then os_push o [c_space] else o).
+  Proof. intros H. destruct b; [apply Hpush; [apply Hnolf; reflexivity|exact H]|exact H]. Qed.
+  Lemma K_comma_if (b : bool) o : Inv o -> Inv (if b then o else os_push o (lit ", ")).
+  Proof. intros H. destruct b; [exact H|apply Hpush; [apply Hnolf; reflexivity|exact H]]. Qed.
+
+  Definition tok_keeps (t : cval) : Prop := names_ok ok t -> forall o, Inv o -> Inv (s_output_token c t o).
+
+  Lemma K_value_from_gen vs :
+    Forall tok_keeps vs -> Forall (names_ok ok) vs ->
+    forall first pe o, Inv o -> Inv (s_output_value_from c vs first pe o).
+  Proof.
+    induction 1 as [|t ts Ht _ IH]; intros Hok first pe o Ho; cbn [s_output_value_from]; [exact Ho|].
+    inversion Hok as [|? ? H1 H2]; subst.
+    apply IH; [exact H2|]. apply Ht; [exact H1|]. apply K_space_if, Ho.
+  Qed.
+
+  Lemma K_args_gen args :
+    Forall (Forall tok_keeps) args -> Forall (Forall (names_ok ok)) args ->
+    forall first o, Inv o -> Inv (s_output_args c args first o).
+  Proof.
+    induction 1 as [|a r Ha _ IH]; intros Hok first o Ho; cbn [s_output_args]; [exact Ho|].
+    inversion Hok as [|? ? H1 H2]; subst.
+    apply IH; [exact H2|]. unfold s_output_value. apply K_value_from_gen; [exact Ha|exact H1|]. apply K_comma_if, Ho.
+  Qed.
+
+  Lemma K_token t : tok_keeps t.
+  Proof.
+    induction t as [k st en|name args IH] using cval_ind2; unfold tok_keeps; intros Hok o Ho.
+    - destruct k; cbn [s_output_token]; try exact Ho; try (apply Hstring, Ho).
+      + apply Hpush; [apply Hnolf, color_nolf|exact Ho].
+      + apply Hfield, Ho.
+    - rewrite s_output_token_func. apply names_ok_func in Hok. destruct Hok as [H1 H2].
+      apply Hpush; [apply Hnolf; reflexivity|]. apply K_args_gen; [exact IH|exact H2|].
+      apply Hpush; [exact H1|exact Ho].
+  Qed.
+
+  Lemma K_output_value v o : Forall (names_ok ok) v -> Inv o -> Inv (s_output_value c v o).
+  Proof. intros Hok Ho. apply K_value_from_gen; [apply Forall_all, K_token|exact Hok|exact Ho]. Qed.
+
+  Lemma K_join_values l : Forall (Forall (names_ok ok)) l ->
+    forall first o, Inv o -> Inv (s_join_values c l first o).
+  Proof.
+    induction 1 as [|v r H1 _ IH]; intros first o Ho; cbn [s_join_values]; [exact Ho|].
+    apply IH. apply K_output_value; [exact H1|]. apply K_comma_if, Ho.
+  Qed.
+
+  Lemma K_css_property_value node o : prop_names_ok ok node -> Inv o -> Inv (s_css_property_value c node o).
+  Proof.
+    intros Hok Ho. unfold s_css_property_value.
+    assert (Q : Inv (let o1 := if cf_json c then os_push o (get_quote c) else o in
+                     let o2 := s_join_values c (pvalue node) true o1 in
+                     if cf_json c then os_push o2 (get_quote c) else o2)).
+    { cbv zeta. destruct (cf_json c).
+      - apply Hpush; [apply Hnolf, get_quote_nolf|]. apply K_join_values; [exact Hok|].
+        apply Hpush; [apply Hnolf, get_quote_nolf|exact Ho].
+      - apply K_join_values; [exact Hok|exact Ho]. }
+    cbv zeta in Q |- *.
+    destruct (if cf_json c then get_single_numeric node else None) as [[value u]|]; [|exact Q].
+    destruct (match u with [] => true | _ => str_eqb u (lit "px") end); [|exact Q].
+    apply Hpush; [apply Hnolf, frac_nolf|exact Ho].
+  Qed.
+
+  Lemma K_output_important node sep o : Inv o -> Inv (s_output_important node sep o).
+  Proof.
+    intros Ho. unfold s_output_important. destruct (pimportant node); [|exact Ho].
+    apply Hpush; [apply Hnolf; reflexivity|]. destruct sep; [apply Hpush; [apply Hnolf; reflexivity|exact Ho]|exact Ho].
+  Qed.
+
+  Lemma K_fold_tokens vs : Forall (names_ok ok) vs ->
+    forall o, Inv o -> Inv (fold_left (fun o v => s_output_token c v o) vs o).
+  Proof.
+    induction 1 as [|t ts H1 _ IH]; intros o Ho; cbn [fold_left]; [exact Ho|].
+    apply IH. apply K_token; assumption.
+  Qed.
+
+  Lemma K_css_property node o : ok (cf_after c) -> prop_names_ok ok node -> Inv o -> Inv (s_css_property c node o).
+  Proof.
+    intros Ha Hok Ho. unfold s_css_property. destruct (pname node) as [name0|].
+    - set (o1 := cs_push_string c o _).
+      assert (H1 : Inv o1) by (apply Hstring, Ho).
+      assert (H2 : Inv (match pvalue node with [] => cs_push_field c o1 (Some 0%N) [] | _ => s_css_property_value c node o1 end)).
+      { destruct (pvalue node) eqn:E; [apply Hfield, H1|]. apply K_css_property_value; assumption. }
+      destruct (cf_json c).
+      + apply Hpush; [apply Hnolf; reflexivity|exact H2].
+      + apply Hpush; [exact Ha|]. apply K_output_important, H2.
+    - apply K_output_important. unfold prop_names_ok in Hok. revert o Ho.
+      induction Hok as [|v r H1 _ IH]; intros o Ho; cbn [fold_left]; [exact Ho|].
+      apply IH. apply K_fold_tokens; assumption.
+  Qed.
+
+  Lemma K_stringify_from l : ok (cf_after c) -> Forall (prop_names_ok ok) l ->
+    forall first o, Inv o -> Inv (s_stringify_from c l first o).
+  Proof.
+    intros Ha. induction 1 as [|p r H1 _ IH]; intros first o Ho; cbn [s_stringify_from]; [exact Ho|].
+    apply IH. apply K_css_property; [exact Ha|exact H1|].
+    destruct (cf_format c && negb first); [apply Hnewline, Ho|exact Ho].
+  Qed.
+
+  Lemma kept_names_ok abbr : Forall (prop_names_ok ok) abbr -> Forall (prop_names_ok ok) (kept c abbr).
+  Proof.
+    intros H. unfold kept. destruct (cf_skip_unmatched c); [|exact H].
+    rewrite Forall_forall in *. intros x Hx. apply filter_In in Hx. apply H, Hx.
+  Qed.
+
+  Theorem K_css_stream abbr : ok (cf_after c) -> Forall (prop_names_ok ok) abbr -> Inv os_empty -> Inv (css_stream c abbr).
+  Proof. intros Ha Hok H0. unfold css_stream. apply K_stringify_from; [exact Ha|apply kept_names_ok, Hok|exact H0]. Qed.
+End Keeps.
+
+(* ---------------------------------------------------------------- reachability *)
+(* decidable form of "no line feed in a function name" *)
 Fixpoint fn_names_ok (v : cval) : bool :=
   match v with
   | VTok _ _ _ => true
   | VFunc name args => Nat.eqb (lf_count name) 0 && forallb (forallb fn_names_ok) args
   end.
 Definition prop_raw_ok (p : cssprop) : bool := forallb (forallb fn_names_ok) (pvalue p).
+(* the raw fragments that are not fixed by the code contain no line feed *)
 Definition css_raw_ok (c : cssfmt) (abbr : list cssprop) : Prop :=
   lf_count (cf_after c) = 0 /\ forallb prop_raw_ok abbr = true.
 
-Definition R (c : cssfmt) (o : ostream) : Prop := reach (cf_fmt c) o.
+Definition nolf (s : str) : Prop := lf_count s = 0.
 
-Lemma R_push c o s : lf_count s = 0 -> R c o -> R c (os_push o s).
-Proof. intros. apply r_push; assumption. Qed.
-Lemma R_push_string c o s : R c o -> R c (cs_push_string c o s).
-Proof. apply r_string. Qed.
-Lemma R_push_field c o i ph : R c o -> R c (cs_push_field c o i ph).
-Proof. apply r_field. Qed.
-Lemma R_space_if c (b : bool) o : R c o -> R c (if b then os_push o [c_space] else o).
-Proof. intros H. destruct b; [apply R_push; [reflexivity|exact H]|exact H]. Qed.
-Lemma R_comma_if c (b : bool) o : R c o -> R c (if b then o else os_push o (lit ", ")).
-Proof. intros H. destruct b; [exact H|apply R_push; [reflexivity|exact H]]. Qed.
-
-Definition tok_keeps (c : cssfmt) (t : cval) : Prop :=
-  fn_names_ok t = true -> forall o, R c o -> R c (s_output_token c t o).
-
-Lemma R_value_from_gen c vs :
-  Forall (tok_keeps c) vs -> forallb fn_names_ok vs = true ->
-  forall first pe o, R c o -> R c (s_output_value_from c vs first pe o).
+Lemma forallb_Forall {A} (f : A -> bool) (P : A -> Prop) l :
+  Forall (fun a => f a = true -> P a) l -> forallb f l = true -> Forall P l.
 Proof.
-  induction 1 as [|t ts Ht _ IH]; intros Hok first pe o Ho; cbn [s_output_value_from]; [exact Ho|].
-  cbn [forallb] in Hok. apply andb_prop in Hok. destruct Hok as [H1 H2].
-  apply IH; [exact H2|]. apply Ht; [exact H1|]. apply R_space_if, Ho.
+  induction 1 as [|a r Ha _ IH]; intros H; [constructor|].
+  cbn [forallb] in H. apply andb_prop in H. destruct H as [H1 H2]. constructor; [apply Ha, H1|apply IH, H2].
 Qed.
 
-Lemma R_args_gen c args :
-  Forall (Forall (tok_keeps c)) args -> forallb (forallb fn_names_ok) args = true ->
-  forall first o, R c o -> R c (s_output_args c args first o).
+Lemma fn_names_ok_nolf v : fn_names_ok v = true -> names_ok nolf v.
 Proof.
-  induction 1 as [|a r Ha _ IH]; intros Hok first o Ho; cbn [s_output_args]; [exact Ho|].
-  cbn [forallb] in Hok. apply andb_prop in Hok. destruct Hok as [H1 H2].
-  apply IH; [exact H2|]. unfold s_output_value. apply R_value_from_gen; [exact Ha|exact H1|]. apply R_comma_if, Ho.
+  induction v as [k st en|name args IH] using cval_ind2; intros H; [exact I|].
+  apply names_ok_func. cbn [fn_names_ok] in H. apply andb_prop in H. destruct H as [H1 H2].
+  apply Nat.eqb_eq in H1. split; [apply lf_count_app_nolf; [exact H1|reflexivity]|].
+  revert H2. apply forallb_Forall.
+  induction IH as [|a r Ha _ IHr]; constructor; [|exact IHr].
+  apply forallb_Forall. exact Ha.
 Qed.
 
-Lemma lf_count_app_nolf a b : lf_count a = 0 -> lf_count b = 0 -> lf_count (a ++ b) = 0.
-Proof. intros. rewrite lf_count_app. lia. Qed.
-
-Lemma R_token c t : tok_keeps c t.
+Lemma raw_ok_names c abbr : css_raw_ok c abbr -> nolf (cf_after c) /\ Forall (prop_names_ok nolf) abbr.
 Proof.
-  induction t as [k st en|name args IH] using cval_ind2; unfold tok_keeps; intros Hok o Ho.
-  - destruct k; cbn [s_output_token]; try exact Ho; try (apply R_push_string, Ho).
-    + apply R_push; [apply color_nolf|exact Ho].
-    + apply R_push_field, Ho.
-  - rewrite s_output_token_func. cbn [fn_names_ok] in Hok. apply andb_prop in Hok. destruct Hok as [H1 H2].
-    apply Nat.eqb_eq in H1.
-    apply R_push; [reflexivity|]. apply R_args_gen; [exact IH|exact H2|].
-    apply R_push; [|exact Ho]. apply lf_count_app_nolf; [exact H1|reflexivity].
-Qed.
-
-Lemma Forall_all {A} (P : A -> Prop) (H : forall a, P a) l : Forall P l.
-Proof. induction l; constructor; auto. Qed.
-
-Lemma R_output_value c v o : forallb fn_names_ok v = true -> R c o -> R c (s_output_value c v o).
-Proof. intros Hok Ho. apply R_value_from_gen; [apply Forall_all, R_token|exact Hok|exact Ho]. Qed.
-
-Lemma R_join_values c l : forallb (forallb fn_names_ok) l = true ->
-  forall first o, R c o -> R c (s_join_values c l first o).
-Proof.
-  induction l as [|v r IH]; intros Hok first o Ho; cbn [s_join_values]; [exact Ho|].
-  cbn [forallb] in Hok. apply andb_prop in Hok. destruct Hok as [H1 H2].
-  apply IH; [exact H2|]. apply R_output_value; [exact H1|]. apply R_comma_if, Ho.
-Qed.
-
-Lemma get_quote_nolf c : lf_count (get_quote c) = 0.
-Proof. unfold get_quote. destruct (cf_json_dq c); reflexivity. Qed.
-
-Lemma R_css_property_value c node o : prop_raw_ok node = true -> R c o -> R c (s_css_property_value c node o).
-Proof.
-  intros Hok Ho. unfold s_css_property_value.
-  assert (Q : R c (let o1 := if cf_json c then os_push o (get_quote c) else o in
-                   let o2 := s_join_values c (pvalue node) true o1 in
-                   if cf_json c then os_push o2 (get_quote c) else o2)).
-  { cbv zeta. destruct (cf_json c).
-    - apply R_push; [apply get_quote_nolf|]. apply R_join_values; [exact Hok|]. apply R_push; [apply get_quote_nolf|exact Ho].
-    - apply R_join_values; [exact Hok|exact Ho]. }
-  cbv zeta in Q |- *.
-  destruct (if cf_json c then get_single_numeric node else None) as [[value u]|]; [|exact Q].
-  destruct (match u with [] => true | _ => str_eqb u (lit "px") end); [|exact Q].
-  apply R_push; [apply frac_nolf|exact Ho].
-Qed.
-
-Lemma R_output_important c node sep o : R c o -> R c (s_output_important node sep o).
-Proof.
-  intros Ho. unfold s_output_important. destruct (pimportant node); [|exact Ho].
-  apply R_push; [reflexivity|]. destruct sep; [apply R_push; [reflexivity|exact Ho]|exact Ho].
-Qed.
-
-Lemma R_fold_tokens c vs : forallb fn_names_ok vs = true ->
-  forall o, R c o -> R c (fold_left (fun o v => s_output_token c v o) vs o).
-Proof.
-  induction vs as [|t ts IH]; intros Hok o Ho; cbn [fold_left]; [exact Ho|].
-  cbn [forallb] in Hok. apply andb_prop in Hok. destruct Hok as [H1 H2].
-  apply IH; [exact H2|]. apply R_token; assumption.
-Qed.
-
-Lemma R_css_property c node o :
-  lf_count (cf_after c) = 0 -> prop_raw_ok node = true -> R c o -> R c (s_css_property c node o).
-Proof.
-  intros Ha Hok Ho. unfold s_css_property. destruct (pname node) as [name0|].
-  - set (o1 := cs_push_string c o _).
-    assert (H1 : R c o1) by (apply R_push_string, Ho).
-    assert (H2 : R c (match pvalue node with [] => cs_push_field c o1 (Some 0%N) [] | _ => s_css_property_value c node o1 end)).
-    { destruct (pvalue node) eqn:E; [apply R_push_field, H1|]. apply R_css_property_value; assumption. }
-    destruct (cf_json c).
-    + apply R_push; [reflexivity|exact H2].
-    + apply R_push; [exact Ha|]. apply R_output_important, H2.
-  - apply R_output_important. unfold prop_raw_ok in Hok. revert o Ho.
-    induction (pvalue node) as [|v r IH]; intros o Ho; cbn [fold_left]; [exact Ho|].
-    cbn [forallb] in Hok. apply andb_prop in Hok. destruct Hok as [H1 H2].
-    apply IH; [exact H2|]. apply R_fold_tokens; assumption.
-Qed.
-
-Lemma R_stringify_from c l :
-  lf_count (cf_after c) = 0 -> forallb prop_raw_ok l = true ->
-  forall first o, R c o -> R c (s_stringify_from c l first o).
-Proof.
-  intros Ha. induction l as [|p r IH]; intros Hok first o Ho; cbn [s_stringify_from]; [exact Ho|].
-  cbn [forallb] in Hok. apply andb_prop in Hok. destruct Hok as [H1 H2].
-  apply IH; [exact H2|]. apply R_css_property; [exact Ha|exact H1|].
-  destruct (cf_format c && negb first); [apply r_newline, Ho|exact Ho].
-Qed.
-
-Lemma kept_raw_ok c abbr : forallb prop_raw_ok abbr = true -> forallb prop_raw_ok (kept c abbr) = true.
-Proof.
-  intros H. unfold kept. destruct (cf_skip_unmatched c); [|exact H].
-  rewrite forallb_forall in *. intros x Hx. apply filter_In in Hx. apply H, Hx.
+  intros [Ha Hok]. split; [exact Ha|].
+  revert Hok. apply forallb_Forall. apply Forall_all. intros p Hp.
+  unfold prop_names_ok. revert Hp. unfold prop_raw_ok. apply forallb_Forall. apply Forall_all. intros v.
+  apply forallb_Forall. apply Forall_all. intros t. apply fn_names_ok_nolf.
 Qed.
 
 (* (1) every stream produced by the stylesheet formatter is reachable *)
 Theorem css_stream_reach c abbr : css_raw_ok c abbr -> reach (cf_fmt c) (css_stream c abbr).
 Proof.
-  intros [Ha Hok]. unfold css_stream. apply R_stringify_from; [exact Ha|apply kept_raw_ok, Hok|apply r_empty].
+  intros H. destruct (raw_ok_names c abbr H) as [Ha Hok].
+  apply (K_css_stream c (reach (cf_fmt c)) nolf); try assumption.
+  - intros o s Hs Ho. apply r_push; assumption.
+  - intros o s. apply r_string.
+  - intros o i ph. apply r_field.
+  - intros o ind. apply r_newline.
+  - intros s Hs. exact Hs.
+  - apply r_empty.
 Qed.
 
 (* ... hence every callback invocation of a stylesheet run receives the offset, line and column
@@ -343,14 +403,31 @@ Theorem css_callback_positions_exact_lemma c abbr a e b :
   ev_col e = column_of (text_of a).
 Proof. intros Hf Hok Hs. eapply positions_exact_lf; [exact Hf|apply css_stream_reach, Hok|exact Hs]. Qed.
 
-Theorem css_callback_positions_any_newline_lemma c abbr a e b :
-  css_raw_ok c abbr ->
+(* Without any hypothesis (any newline / indent strings, any function names, any stylesheet.after): the
+   stream invariant of OutStreamProofs holds, so the offset is exact, the line is the number of line ends the
+   stream itself wrote before, the column the distance from the last of them. *)
+Theorem css_stream_inv c abbr : stream_inv (cf_fmt c) (css_stream c abbr).
+Proof.
+  apply (K_css_stream c (stream_inv (cf_fmt c)) (fun _ => True)); try exact I.
+  - intros o s _. apply inv_push.
+  - intros o s. apply inv_push_string.
+  - intros o i ph. apply inv_push_field.
+  - intros o ind. apply inv_push_newline.
+  - intros s _. exact I.
+  - apply Forall_all. intros p. unfold prop_names_ok. apply Forall_all. intros v. apply Forall_all.
+    intros t. induction t as [k st en|name args IH] using cval_ind2; [exact I|]. apply names_ok_func. split; [exact I|exact IH].
+  - apply inv_empty.
+Qed.
+
+Theorem css_callback_offsets_exact_lemma c abbr a e b :
   chron (css_stream c abbr) = a ++ e :: b ->
   os_value (css_stream c abbr) = text_of a ++ ev_text e ++ text_of b /\
   ev_off e = length (text_of a) /\
   ev_line e = count_nl (rev a) /\
   ev_col e = length (text_of a) - line_start (cf_fmt c) (rev a).
 Proof.
-  intros Hok Hs. destruct (positions_exact (cf_fmt c) _ a e b (css_stream_reach c abbr Hok) Hs) as [H1 [H2 [H3 H4]]].
-  repeat split; assumption.
+  intros Hs. destruct (css_stream_inv c abbr) as [Hw _].
+  destruct (wf_split (cf_fmt c) (os_events (css_stream c abbr)) a e b Hw Hs) as [H1 [H2 [H3 _]]].
+  repeat split; try assumption.
+  change (os_value (css_stream c abbr)) with (text_of (chron (css_stream c abbr))). rewrite Hs, text_of_app. reflexivity.
 Qed.
